@@ -12,6 +12,7 @@ import (
 	"strings"
 	"sync"
 	"sync/atomic"
+	"syscall"
 	"testing"
 	"time"
 
@@ -41,8 +42,16 @@ type Script struct {
 	// connection and reads, but never answers RegisterPlugin and never closes. "noconfigure":
 	// it registers the plugin, then stays silent (no Configure) and never closes.
 	Kind string `json:"kind"`
-	Dir  string `json:"dir,omitempty"` // "s2r" (stub to runtime) or "r2s", for cut
-	K    int    `json:"k,omitempty"`
+	// How (unreachable): the way the runtime is not there. "" / "absent" = no such path
+	// (ENOENT); "stale-socket" = a socket file left behind by a listener that is gone
+	// (ECONNREFUSED); "regular-file" / "directory" = the path is something else (whatever the
+	// kernel answers); "custom-refused" / "custom-timedout" = the dialer returns an error of
+	// its own wrapping ECONNREFUSED / ETIMEDOUT. CtxMs (unreachable): 0 = Start is given
+	// context.Background(), otherwise a context with this deadline.
+	How   string `json:"how,omitempty"`
+	CtxMs int    `json:"ctx_ms,omitempty"`
+	Dir   string `json:"dir,omitempty"` // "s2r" (stub to runtime) or "r2s", for cut
+	K     int    `json:"k,omitempty"`
 	// CloseAfter: the refusing peer also closes the connection right after refusing.
 	CloseAfter bool `json:"close_after,omitempty"`
 	DropMs     int  `json:"drop_ms,omitempty"` // regdrop
@@ -198,6 +207,8 @@ var (
 	reqMsDomain = []int64{0, 1, 300, 2000, 2000, 3600000, -5}
 )
 
+var unreachableWays = []string{"absent", "stale-socket", "regular-file", "directory", "custom-refused", "custom-timedout"}
+
 // hugeTimeout: a stored registration timeout above the default is the runtime's own wish to
 // wait that long; a silent runtime end is not combined with it.
 const hugeTimeout = stub.DefaultRegistrationTimeout
@@ -213,17 +224,9 @@ func genScript(t *rapid.T, h handshake, est *int64, plug string) *Script {
 		kinds = []string{"healthy", "healthy", "unreachable", "raw"}
 	}
 	if *est <= 300 && !ev.Known(knownD10) {
-		// the stub is believed to hold a short, unset or negative registration timeout: this is
-		// where a runtime end that stays silent is cheap to sit through and most telling
+		// the stub is believed to hold a short registration timeout: this is where a runtime end
+		// that stays silent is cheap to sit through
 		kinds = append(kinds, "silent", "silent", "noconfigure", "noconfigure")
-		if *est <= 0 {
-			// unset or negative: on the unchanged tree every handshake of this stub now gives up
-			// at once, so little else is left to see but whether it still gives up
-			kinds = []string{"silent", "silent", "silent", "noconfigure", "noconfigure", "noconfigure", "healthy", "raw", "cut", "regdrop", "refused"}
-			if ev.Known(knownD8) {
-				kinds = kinds[:len(kinds)-2]
-			}
-		}
 	}
 	before := *est
 	s := &Script{Kind: rapid.SampledFrom(kinds).Draw(t, "kind")}
@@ -241,7 +244,12 @@ func genScript(t *rapid.T, h handshake, est *int64, plug string) *Script {
 		s.ReqMs = rapid.SampledFrom(reqMsDomain).Draw(t, "req_ms")
 		s.DoSync = rapid.Bool().Draw(t, "do_sync")
 		s.Activate = rapid.IntRange(0, 2).Draw(t, "activate") > 0
-		*est = s.RegMs
+		if s.RegMs > 0 {
+			*est = s.RegMs // a runtime that sends none (0, negative) leaves the stub's own in place
+		}
+	case "unreachable":
+		s.How = rapid.SampledFrom(unreachableWays).Draw(t, "how")
+		s.CtxMs = rapid.SampledFrom([]int{0, 0, 0, 50, 500}).Draw(t, "ctx_ms")
 	case "healthy":
 		s.Activate = rapid.IntRange(0, 2).Draw(t, "activate") > 0
 		*est = rtRegTimeout.Milliseconds()
@@ -282,15 +290,15 @@ func genScript(t *rapid.T, h handshake, est *int64, plug string) *Script {
 		send := rapid.Custom(func(t *rapid.T) Send {
 			return Send{
 				At:  rapid.SampledFrom([]string{"after-sync", "after-probe", "before-end"}).Draw(t, "at"),
-				Req: rapid.SampledFrom([]string{"shutdown", "shutdown", "shutdown", "configure", "synchronize", "unknown-event", "unknown-method"}).Draw(t, "req"),
+				Req: rapid.SampledFrom([]string{"shutdown", "shutdown", "shutdown", "configure", "configure", "configure", "synchronize", "unknown-event", "unknown-method"}).Draw(t, "req"),
 			}
 		})
-		s.Sends = rapid.SliceOfN(send, 1, 3).Draw(t, "send_list")
-		// at most one more Configure: the stub's result channel holds one
+		s.Sends = rapid.SliceOfN(send, 1, 4).Draw(t, "send_list")
+		// up to three more Configure requests (a second, third and fourth one on the connection)
 		n := 0
 		for i := range s.Sends {
 			if s.Sends[i].Req == "configure" {
-				if n++; n > 1 {
+				if n++; n > 3 {
 					s.Sends[i].Req = "shutdown"
 				}
 			}
@@ -309,7 +317,7 @@ func genScript(t *rapid.T, h handshake, est *int64, plug string) *Script {
 			// costs a whole timeout (2 s against the adaptation, the stored one against the raw
 			// peer): mostly where that is short
 			cheap := s.Kind == "raw" && before > 0 && before <= 300
-			if !cheap && rapid.IntRange(0, 39).Draw(t, "slow_hook") != 23 {
+			if before > int64(hugeTimeout/time.Millisecond) || (!cheap && rapid.IntRange(0, 39).Draw(t, "slow_hook") != 23) {
 				h.Call = "timeouts"
 			}
 		}
@@ -464,12 +472,13 @@ type exec struct {
 	bulks    []chan error // pending large UpdateContainers calls
 
 	// bookkeeping for evidence
-	hist    []step
-	cur_i   int
-	classes map[string]bool
-	lenient map[string]bool
-	faulted bool // a session ended by fault or back-to-back restart
-	wedged  bool // a stub call did not return: the stub is abandoned
+	hist      []step
+	cur_i     int
+	classes   map[string]bool
+	lenient   map[string]bool
+	faulted   bool // a session ended by fault or back-to-back restart
+	wedged    bool // a stub call did not return: the stub is abandoned
+	unsetSeen bool // a raw runtime that sent RegistrationTimeout <= 0 configured this stub
 	// stillStarted: at the last idle state the stub kept reporting IsStarted for 3 s
 	stillStarted bool
 	stacks       string
@@ -617,8 +626,11 @@ func (x *exec) dial(string) (net.Conn, error) {
 		sc = &Script{Kind: "healthy"}
 	}
 	if sc.Kind == "unreachable" {
-		// the kernel's own error for a socket that is not there
-		return net.Dial("unix", filepath.Join(x.dir, "absent.sock"))
+		// stays unreachable for as long as this Start keeps dialling
+		x.mu.Lock()
+		x.pending = sc
+		x.mu.Unlock()
+		return x.dialUnreachable(sc.How, n)
 	}
 	var a, b net.Conn
 	var err error
@@ -715,6 +727,44 @@ func (x *exec) runHook(kind string) {
 		_ = x.st.RegistrationTimeout()
 		_ = x.st.RequestTimeout()
 	}
+}
+
+// dialUnreachable produces the error of a runtime that is not there, in one of several ways;
+// wherever the kernel can say it, the kernel does.
+func (x *exec) dialUnreachable(how string, n int) (net.Conn, error) {
+	path := filepath.Join(x.dir, fmt.Sprintf("gone%d.sock", n))
+	switch how {
+	case "stale-socket":
+		// a listener that went away and left its socket file behind
+		l, err := net.ListenUnix("unix", &net.UnixAddr{Name: path, Net: "unix"})
+		if err != nil {
+			x.infra(err)
+			return nil, err
+		}
+		l.SetUnlinkOnClose(false)
+		l.Close()
+	case "regular-file":
+		if err := os.WriteFile(path, []byte("not a socket"), 0o600); err != nil {
+			x.infra(err)
+			return nil, err
+		}
+	case "directory":
+		if err := os.Mkdir(path, 0o700); err != nil {
+			x.infra(err)
+			return nil, err
+		}
+	case "custom-refused":
+		return nil, fmt.Errorf("verif dialer: runtime not accepting connections: %w", syscall.ECONNREFUSED)
+	case "custom-timedout":
+		return nil, fmt.Errorf("verif dialer: %w", syscall.ETIMEDOUT)
+	}
+	c, err := net.Dial("unix", path)
+	if err == nil { // cannot happen; never hand out a half-made connection
+		c.Close()
+		err = errors.New("verif: unexpectedly connected to " + path)
+		x.infra(err)
+	}
+	return nil, err
 }
 
 func isRawKind(k string) bool {
@@ -868,7 +918,12 @@ func (x *exec) doStart(sc Script) *failure {
 		x.cfgFail = sc.CfgFail
 	}
 	x.hook = nil
-	if h := validHook(sc); h != nil && !wasUp && hasHandler(x.c.Plugin, h.In) {
+	if h := validHook(sc); h != nil && !wasUp && hasHandler(x.c.Plugin, h.In) && h.In == "configure" && blockingCall(h.Call) && regNow > hugeTimeout {
+		// a handshake that cannot finish (its Configure handler waits for the lock Start holds)
+		// ends by the stub's timeout: like a silent runtime end it is not combined with a very
+		// large timeout an earlier runtime asked for
+		x.classes["hook-skipped-huge-timeout"] = true
+	} else if h != nil && !wasUp && hasHandler(x.c.Plugin, h.In) {
 		x.hook = &hookState{spec: *h, done: make(chan struct{})}
 		x.classes["hook:"+h.In+":"+h.Call] = true
 	}
@@ -882,7 +937,12 @@ func (x *exec) doStart(sc Script) *failure {
 	l0 := len(x.links)
 	x.mu.Unlock()
 	bound := x.startBound()
-	err, returned, pan := x.guarded(bound, func() error { return x.st.Start(context.Background()) })
+	ctx, cancel := context.Background(), context.CancelFunc(func() {})
+	if sc.Kind == "unreachable" && sc.CtxMs > 0 && !wasUp {
+		ctx, cancel = context.WithTimeout(ctx, time.Duration(sc.CtxMs)*time.Millisecond)
+	}
+	err, returned, pan := x.guarded(bound, func() error { return x.st.Start(ctx) })
+	cancel()
 	x.mu.Lock()
 	x.pending = nil
 	ierr := x.dialErr
@@ -890,6 +950,23 @@ func (x *exec) doStart(sc Script) *failure {
 	x.mu.Unlock()
 	dialed := x.dials.Load() - d0
 	desc := sc.Kind
+	if sc.Kind == "unreachable" {
+		how := sc.How
+		if how == "" {
+			how = "absent"
+		}
+		desc += " (" + how
+		if sc.CtxMs > 0 {
+			desc += fmt.Sprintf(", context deadline %d ms", sc.CtxMs)
+		}
+		desc += ")"
+		if !wasUp {
+			x.classes["unreachable:"+how] = true
+			if sc.CtxMs > 0 {
+				x.classes["unreachable:ctx-deadline"] = true
+			}
+		}
+	}
 	if sc.Kind == "cut" {
 		desc = fmt.Sprintf("cut %s k=%d", sc.Dir, sc.K)
 		if sc.HoldMs > 0 {
@@ -972,13 +1049,24 @@ func (x *exec) doStart(sc Script) *failure {
 		}
 		x.classes["start:"+sc.Kind] = true
 		if sc.Kind == "raw" {
+			ncfg := 0
 			for _, sd := range sc.Sends {
+				if sd.Req == "configure" {
+					if ncfg++; ncfg >= 2 {
+						x.classes["send:configure-3rd-or-4th"] = true
+					}
+				}
 				x.classes["send:"+sd.Req] = true
 				x.classes["send-at:"+sd.At] = true
 			}
 			switch {
 			case sc.RegMs <= 0:
 				x.classes["raw:reg<=0"] = true
+				x.unsetSeen = true
+				// D22: such a session leaves the stub's timeouts as they were
+				if now := x.st.RegistrationTimeout(); now <= 0 {
+					return hard("after a session whose runtime sent RegistrationTimeout=%d the stub's RegistrationTimeout() is %v: a later Start can only fail", sc.RegMs, now)
+				}
 			case sc.RegMs < 1000:
 				x.classes["raw:reg-short"] = true
 			case sc.RegMs > 5000:
@@ -1036,6 +1124,11 @@ func (x *exec) doStart(sc Script) *failure {
 			x.lenient["start-fails-when-configure-handler-calls-a-lock-taking-stub-method"] = true
 			break
 		}
+		if regNow <= 0 {
+			// D22: a runtime that sent no timeouts (0, negative) must not leave the stub with
+			// none of its own: it could never be started again
+			return hard("a Start (%s) against a healthy runtime failed and the stub holds a registration timeout of %v: it took over the zero/negative timeout an earlier runtime sent and cannot be started again: %v", desc, regNow, err)
+		}
 		if regNow < minUsableTimeout {
 			// not judged: see minUsableTimeout
 			x.classes["start:failed-tiny-timeout"] = true
@@ -1058,10 +1151,13 @@ func (x *exec) doStart(sc Script) *failure {
 	default:
 		x.classes["start:"+sc.Kind] = true
 		if sc.Kind == "silent" || sc.Kind == "noconfigure" {
-			if regNow <= 0 {
-				x.classes["silent:stored-timeout<=0"] = true
+			if x.unsetSeen {
+				x.classes["silent:after-runtime-sent-no-timeouts"] = true
+			}
+			if regNow < minUsableTimeout {
+				x.classes["silent:short-stored-timeout"] = true
 			} else {
-				x.classes["silent:stored-timeout>0"] = true
+				x.classes["silent:stored-timeout>=1s"] = true
 			}
 		}
 	}
@@ -1475,7 +1571,33 @@ func (x *exec) upperBound(why string) *failure {
 	return nil
 }
 
+// checkPeers: every Configure request a raw runtime peer sent got an answer (a response or
+// an error) within the bound; wait=true first lets requests that are under way finish.
+func (x *exec) checkPeers(why string, wait bool) *failure {
+	x.mu.Lock()
+	peers := append([]*refuser(nil), x.refusers...)
+	x.mu.Unlock()
+	for _, r := range peers {
+		if wait {
+			for dl := time.Now().Add(slack + time.Second); r.busy.Load() > 0 && time.Now().Before(dl); {
+				time.Sleep(time.Millisecond)
+			}
+		}
+		r.sendMu.Lock()
+		un := append([]string(nil), r.unanswered...)
+		r.sendMu.Unlock()
+		if len(un) > 0 {
+			x.rec("peer", time.Now(), "unanswered: %v", un)
+			return soft("%s: the runtime's %s was not answered by the stub within %v (neither a response nor an error)", why, un[0], slack)
+		}
+	}
+	return nil
+}
+
 func (x *exec) settleUp(why string) *failure {
+	if f := x.checkPeers(why, false); f != nil {
+		return f
+	}
 	if f := x.notifications(why); f != nil {
 		return f
 	}
@@ -1489,6 +1611,9 @@ func (x *exec) settleUp(why string) *failure {
 // notification of an established session fires once, and the connection is released.
 func (x *exec) settleIdle(why string) *failure {
 	t0 := time.Now()
+	if f := x.checkPeers(why, false); f != nil {
+		return f
+	}
 	if f := x.waitReturns(t0, "after "+why); f != nil {
 		return f
 	}
@@ -1641,6 +1766,22 @@ func (x *exec) epilogue() *failure {
 	}
 	if f := x.settleIdle("final Stop"); f != nil {
 		return f
+	}
+	if f := x.checkPeers("end", true); f != nil {
+		return f
+	}
+	if hasHandler(x.c.Plugin, "configure") {
+		// the plugin's Configure handler ran (at least) once per Configure request that a raw
+		// runtime got answered without an error
+		x.mu.Lock()
+		answered := 0
+		for _, r := range x.refusers {
+			answered += int(r.cfgAnswered.Load())
+		}
+		x.mu.Unlock()
+		if n := int(x.cfgs.Load()); n < answered {
+			return hard("end: raw runtimes got %d Configure requests answered without an error but the plugin's Configure handler ran only %d times", answered, n)
+		}
 	}
 	// a duplicate notification would follow its twin closely
 	time.Sleep(20*time.Millisecond + x.maxCCWait)
